@@ -378,7 +378,20 @@ func (g *c01Gen) genLoop(s *c01Scope) []*c01Node {
 		loop.lit = itoa(int(n))
 	}
 
-	body := g.genBlockWith(c, 1+g.pick(3), g.loopPre(), nil)
+	var body *c01Node
+
+	after := []*c01Node{}
+
+	if kept := len(loop.xs) > 0 && !s.inDefer && g.chance(0.3); kept {
+		// the "kept closure" shape: few other statements, so that the body often holds nothing but
+		// nested blocks
+		kpre, kpost, kafter := g.keptClosure(s, c, loop.xs)
+		pre = append(pre, kpre...)
+		after = kafter
+		body = g.genBlockWith(c, g.pick(2), nil, kpost)
+	} else {
+		body = g.genBlockWith(c, 1+g.pick(3), g.loopPre(), nil)
+	}
 
 	switch loop.s {
 	case "counter":
@@ -392,7 +405,93 @@ func (g *c01Gen) genLoop(s *c01Scope) []*c01Node {
 	loop.s, loop.x, loop.lit = "", nil, ""
 	loop.args[3] = body
 
-	return append(pre, loop)
+	return append(append(pre, loop), after...)
+}
+
+// keptClosure: the statements of the "kept closure" shape around one loop with loop variables lvs
+// (s: the scope holding the loop statement, c: the scope of the loop).  Before the loop
+// `kf := func() int { return <literal> }`; as the last statement of the loop body a NESTED block
+// (if / else / if in if / switch case) that stores a function literal over the loop variables into
+// kf; after the loop `fmt.Println("k", kf())`.  Go: the literal stored last still sees the loop
+// variables of the iteration that created it.
+func (g *c01Gen) keptClosure(s, c *c01Scope, lvs []*c01Var) (pre []*c01Node, post func(b *c01Scope) []*c01Node, after []*c01Node) {
+	mkLit := func(e *c01Node) *c01Node {
+		f := &c01Func{isLit: true, results: []*c01Var{g.newVar(c01Ty{sort: 'i', kind: "int"})}}
+		f.body = c01Seq(&c01Node{op: "ret", args: []*c01Node{e}})
+		g.prog.funcs = append(g.prog.funcs, f)
+
+		return &c01Node{op: "fnlit", f: f}
+	}
+
+	asInt := func(v *c01Var) *c01Node {
+		if v.ty.kind == "int" {
+			return c01VarN(v)
+		}
+
+		return &c01Node{op: "conv", kind: "int", args: []*c01Node{c01VarN(v)}}
+	}
+
+	kf := g.newVar(c01Ty{sort: 'F', sig: 0})
+	pre = []*c01Node{{op: "decl", x: kf, args: []*c01Node{mkLit(c01Lit(int64(-1 - g.pick(3))))}}}
+	s.vars = append(s.vars, kf)
+	c.vars = append(c.vars, kf)
+	after = []*c01Node{{op: "println", args: []*c01Node{{op: "slit", s: "k"}, {op: "callv", args: []*c01Node{c01VarN(kf)}}}}}
+
+	post = func(b *c01Scope) []*c01Node {
+		store := func() *c01Node {
+			e := &c01Node{op: "bin", bop: "add", args: []*c01Node{{op: "bin", bop: "mul", args: []*c01Node{asInt(lvs[0]), c01Lit(10)}}, c01Lit(int64(1 + g.pick(5)))}}
+			for _, v := range lvs[1:] {
+				e = &c01Node{op: "bin", bop: "add", args: []*c01Node{e, asInt(v)}}
+			}
+
+			return &c01Node{op: "assign", x: kf, args: []*c01Node{mkLit(e)}}
+		}
+
+		cond := func() *c01Node {
+			v := lvs[g.pick(len(lvs))]
+
+			switch g.pick(4) {
+			case 0:
+				return &c01Node{op: "bin", bop: "eq", kind: v.ty.kind, args: []*c01Node{{op: "bin", bop: "mod", args: []*c01Node{c01VarN(v), c01Lit(2)}}, c01Lit(int64(g.pick(2)))}}
+			case 1:
+				return &c01Node{op: "bin", bop: "ne", kind: v.ty.kind, args: []*c01Node{c01VarN(v), c01Lit(int64(g.pick(4)))}}
+			case 2:
+				return &c01Node{op: "bin", bop: "lt", kind: v.ty.kind, args: []*c01Node{c01VarN(v), c01Lit(int64(1 + g.pick(3)))}}
+			}
+
+			return &c01Node{op: "bin", bop: "ge", kind: "int", args: []*c01Node{asInt(v), c01Lit(0)}}
+		}
+
+		note := func() *c01Node {
+			return &c01Node{op: "println", args: []*c01Node{{op: "slit", s: "n"}, asInt(lvs[len(lvs)-1])}}
+		}
+
+		switch g.pick(5) {
+		case 0:
+			return []*c01Node{{op: "ite", args: []*c01Node{cond(), c01Seq(store()), c01Seq()}}}
+		case 1:
+			return []*c01Node{{op: "ite", args: []*c01Node{cond(), c01Seq(note()), c01Seq(store())}}}
+		case 2:
+			return []*c01Node{{op: "ite", args: []*c01Node{cond(), c01Seq(note(), &c01Node{op: "ite", args: []*c01Node{cond(), c01Seq(store()), c01Seq()}}), c01Seq()}}}
+		case 3:
+			return []*c01Node{{op: "ite", args: []*c01Node{cond(), c01Seq(store()), c01Seq(store())}}}
+		}
+
+		v := lvs[g.pick(len(lvs))]
+		sw := &c01Node{op: "switch", args: []*c01Node{{op: "bin", bop: "mod", args: []*c01Node{c01VarN(v), c01Lit(3)}}}}
+		sw.cases = [][]int64{{int64(g.pick(2))}, {2}}
+		sw.args = append(sw.args, c01Seq(store()), c01Seq(note()))
+
+		if g.chance(0.5) {
+			sw.args = append(sw.args, c01Seq(store()))
+		} else {
+			sw.args = append(sw.args, c01Seq())
+		}
+
+		return []*c01Node{sw}
+	}
+
+	return pre, post, after
 }
 
 func (g *c01Gen) genRange(s *c01Scope, sl *c01Var) []*c01Node { return g.genRangeWith(s, sl, nil) }
@@ -438,11 +537,28 @@ func (g *c01Gen) genRangeWith(s *c01Scope, sl *c01Var, post func(c *c01Scope) []
 		c.vars = append(c.vars, vv)
 	}
 
+	loop.x, loop.x2 = iv, vv
+
+	if post == nil && !s.inDefer && g.chance(0.3) {
+		// the "kept closure" shape (see keptClosure)
+		lvs := []*c01Var{}
+
+		for _, v := range []*c01Var{vv, iv} {
+			if v.id != 0 {
+				lvs = append(lvs, v)
+			}
+		}
+
+		kpre, kpost, kafter := g.keptClosure(s, c, lvs)
+		loop.args = []*c01Node{c01VarN(sl), g.genBlockWith(c, g.pick(2), nil, kpost)}
+
+		return append(append(kpre, loop), kafter...)
+	}
+
 	if post == nil && g.chance(0.5) {
 		post = g.callScanner
 	}
 
-	loop.x, loop.x2 = iv, vv
 	loop.args = []*c01Node{c01VarN(sl), g.genBlockWith(c, 1+g.pick(3), g.loopPre(), post)}
 
 	return []*c01Node{loop}
